@@ -1,23 +1,20 @@
 import NmlVerif.Proofs.Regen
-import NmlVerif.Gen.Regen
 /-!
 # C20 — the shipped bindings are what regeneration from the sources would produce
 
-`T` is the table `translators/helpers_extract.py` regenerates from the library's working tree on every check
-(`lean/NmlVerif/Gen/Regen.lean`): for every `MethodSpec` of `helper_methods.py` its `class_names` and the
-(name, normalised-AST digest) of each class-body statement of its source; for every binding class of `nml.py`
-the (name, digest) of its user statements (everything after `_buildChildren`) in source order; the complex
-types of `NeuroML_<current_neuroml_version>.xsd`; the version / command-line strings.
+Statements (for ANY table) and the generic theorems that say what the finite comparisons mean. Nothing here depends
+on the extracted tables, so this module builds whatever the tree under test looks like; the table-dependent
+obligations live in `Props/C20Methods`, `C20Types`, `C20Version`, `C20Regen`, `C20RegenUser`, `C20Finding` and in the
+generated per-class modules `Gen/C20Pairs/*` — one failing comparison breaks only its own module (second pass).
 
-Scope, honestly: the kernel checks finite comparisons over that table (`decide +kernel`). Their substance — that a
-digest stands for a normalised statement — is in the translator, which is validated (harness self-tests, a
-bytecode-level oracle on the imported library) but not verified. The lifting theorems below are generic (any
-source type, any tables): they say what the finite comparison means, and are what makes it more than a test.
+Scope, honestly: the kernel checks finite comparisons over tables (`decide +kernel`). Their substance — that a
+digest stands for a normalised statement — is in the translators, which are validated (harness self-tests, a
+bytecode-level oracle on the imported library, the real generateDS run) but not verified. The lifting theorems below
+are generic (any source type, any tables): they say what the finite comparison means, and are what makes it more than
+a test.
 -/
 namespace NmlVerif.C20
 open NmlVerif.Regen
-
-abbrev T : Tables := NmlVerif.Gen.Regen.tables
 
 /-! ## statements (for any table) -/
 
@@ -27,16 +24,33 @@ abbrev T : Tables := NmlVerif.Gen.Regen.tables
     permutation can change behaviour) -/
 abbrev MethodsAgree (T : Tables) : Prop := ∀ c ∈ T.shipped, c.2 = regenerated T.specs c.1
 
+/-- the same for ONE class (the per-class obligations of `Gen/C20Pairs/*`) -/
+abbrev ClassHelpersAgree (T : Tables) (cls : Nat) : Prop :=
+  ∀ c ∈ T.shipped, c.1 = cls → c.2 = regenerated T.specs cls
+
+/-- … and for all classes but the listed ones -/
+abbrev OtherClassesHelpersAgree (T : Tables) (listed : List Nat) : Prop :=
+  ∀ c ∈ T.shipped, c.1 ∉ listed → c.2 = regenerated T.specs c.1
+
 /-- the per-class table has one row per binding class, in file order -/
 abbrev ShippedCoversClasses (T : Tables) : Prop := T.shipped.map (·.1) = T.classes
 
 /-- a spec never names a class that does not exist (its helper would silently not be shipped) -/
 abbrev SpecTargetsExist (T : Tables) : Prop := ∀ s ∈ T.specs, ∀ c ∈ s.classNames.named, c ∈ T.classes
 
+/-- `%(class_name)s` rows are only recorded for classes the spec names -/
+abbrev PerClassRowsNamed (T : Tables) : Prop := ∀ s ∈ T.specs, ∀ p ∈ s.perClass, p.1 ∈ s.classNames.named
+
 /-- binding classes ↔ complex types: no duplicates, both inclusions -/
 abbrev TypesCorrespond (T : Tables) : Prop :=
   T.classes.Nodup ∧ T.complexTypes.Nodup ∧ (∀ x ∈ T.classes, x ∈ T.complexTypes) ∧
     (∀ x ∈ T.complexTypes, x ∈ T.classes)
+
+/-- second pass: the correspondence also carries the derivation: the Python base class list of every binding
+    class is `[extension base of its complexType]`, or `[GeneratedsSuper]` when the type extends nothing -/
+abbrev BasesCorrespond (T : Tables) : Prop :=
+  T.classBases.map (·.1) = T.classes ∧ T.xsdBases.map (·.1) = T.complexTypes ∧
+  ∀ cb ∈ T.classBases, ∃ xb ∈ T.xsdBases, xb.1 = cb.1 ∧ cb.2 = expectedBases T.rootBase xb.2
 
 /-- the remaining top-level classes are generateDS's support classes and one `Enum` per enumerated simple type -/
 abbrev OtherClassesAccounted (T : Tables) : Prop :=
@@ -66,95 +80,31 @@ abbrev CmdlineAgrees (V : Versions) : Prop :=
   V.headerCmdOptions = V.headerOptions ∧ V.scriptOptions = V.headerOptions ∧
     ("--user-methods", V.helperFile) ∈ V.headerOptions
 
-/-! ## the extracted table satisfies them (finite, kernel-checked) -/
+/-- second pass, FULL statement: every occurrence of a schema file name / version in the package's code denotes
+    the schema named in the bindings' header (false today: `config.py` — see `Props/C20Finding.lean`) -/
+def OccurrencesAgree_full (T : Tables) : Prop := ∀ o ∈ T.occurrences, o.schemaFile = T.versions.headerXsd
 
-theorem c20_methods : MethodsAgree T := by decide +kernel
+/-- … restricted to the occurrences that select / name the schema of the bindings and of written files -/
+abbrev OccurrencesAgree_partial (T : Tables) : Prop :=
+  ∀ o ∈ T.occurrences, o.role = .schema → o.schemaFile = T.versions.headerXsd
 
-theorem c20_shipped_classes : ShippedCoversClasses T := by decide +kernel
-
-theorem c20_spec_targets : SpecTargetsExist T := by decide +kernel
-
-/-- kernel-checked with the structural Boolean checks of `Proofs/Regen.lean` (their soundness is proved there) -/
-theorem c20_types : TypesCorrespond T :=
-  ⟨nodupB_sound _ (by decide +kernel), nodupB_sound _ (by decide +kernel),
-   subsetB_sound _ _ (by decide +kernel), subsetB_sound _ _ (by decide +kernel)⟩
-
-theorem c20_other_classes : OtherClassesAccounted T := by decide +kernel
-
-theorem c20_imports : ImportsAgree T := by decide +kernel
-
-theorem c20_version : VersionsAgree T.versions := by decide +kernel
-
-theorem c20_cmdline : CmdlineAgrees T.versions := by decide +kernel
-
-/-! ## what the finite comparisons mean -/
-
-/-- for every binding class: the shipped user statements are exactly (digest-wise, in order) what
-    `(specs.filter (insertionRule · cls)).flatMap items` yields — `c20_methods` re-indexed by class -/
-theorem c20_methods_by_class : ∀ cls ∈ T.classes, ∃ c ∈ T.shipped, c.1 = cls ∧
-    c.2 = (T.specs.filter (insertionRule · cls)).flatMap (·.items) := by
-  intro cls hcls
-  rw [← c20_shipped_classes] at hcls
-  obtain ⟨c, hc, rfl⟩ := List.mem_map.mp hcls
-  exact ⟨c, hc, rfl, c20_methods c hc⟩
-
-/-- "inserted in exactly the classes that source names": a user statement sits in a binding class iff some
-    spec that names the class (string equality / list membership, `match_name`) contains it -/
-theorem c20_inserted_exactly : ∀ c ∈ T.shipped, ∀ it,
-    it ∈ c.2 ↔ ∃ spec ∈ T.specs, c.1 ∈ spec.classNames.named ∧ it ∈ spec.items := by
-  intro c hc it
-  rw [c20_methods c hc]
-  exact mem_regenerated T.specs c.1 it
-
-/-- binding classes and complex types are in one-to-one correspondence -/
-theorem c20_types_perm : T.classes.Perm T.complexTypes :=
-  perm_of_nodup_mutual c20_types.1 c20_types.2.1 c20_types.2.2.1 c20_types.2.2.2
-
-theorem c20_types_count : T.classes.length = T.complexTypes.length := c20_types_perm.length_eq
-
-/-- **Regeneration is the identity (lifted).** Take ANY type `σ` of normalised statements with ANY
-    collision-free `key` (name, digest), ANY spec sources and class bodies whose translator view is the
-    extracted table. Then regenerating every binding class — keeping the schema-driven part, replacing the
-    user part by what generateDS writes from the specs — returns the class body unchanged. -/
-theorem c20_regeneration_identity {σ : Type} (key : σ → Item Nat)
-    (specsS : List (SpecS Nat σ)) (bodies : Nat → ClassBody σ)
-    (hspecs : specsS.map (SpecS.abstract key) = T.specs)
-    (hship : ∀ c ∈ T.shipped, (bodies c.1).user.map key = c.2)
-    (hinj : ∀ a b, key a = key b → a = b) :
-    ∀ cls ∈ T.classes, regenClass specsS cls (bodies cls) = bodies cls := by
-  intro cls hcls
-  obtain ⟨c, hc, rfl, _⟩ := c20_methods_by_class cls hcls
-  apply regenClass_id key
-  · rw [hship c hc, hspecs]; exact c20_methods c hc
-  · intro x _ y _ h; exact hinj x y h
-
-/-- the hypotheses are satisfiable: the table itself, read as sources (`σ := Item Nat`, `key := id`) -/
-def selfSpecs : List (SpecS Nat (Item Nat)) := T.specs.map (fun s => ⟨s.name, s.classNames, s.items⟩)
-def selfBodies (cls : Nat) : ClassBody (Item Nat) := ⟨[], ((T.shipped.find? (·.1 == cls)).map (·.2)).getD []⟩
-
-example : selfSpecs.map (SpecS.abstract id) = T.specs := by decide +kernel
-example : ∀ c ∈ T.shipped, (selfBodies c.1).user.map id = c.2 := by decide +kernel
-example : ∀ cls ∈ T.classes, regenClass selfSpecs cls (selfBodies cls) = selfBodies cls :=
-  c20_regeneration_identity id selfSpecs selfBodies (by decide +kernel) (by decide +kernel) (fun _ _ h => h)
-/-- non-trivial: some class has user statements, some spec is inserted into two classes -/
-example : ∃ c ∈ T.shipped, 2 ≤ c.2.length := by decide +kernel
-example : ∃ s ∈ T.specs, 2 ≤ s.classNames.named.length := by decide +kernel
+/-! ## what the finite comparisons mean (generic) -/
 
 /-- **A one-sided change is detected (any tables).** If, for some class, the shipped user part differs from
     what the spec sources yield (an edit in `nml.py` only, or in `helper_methods.py` only, a method added,
     dropped or reordered on one side) and digests are collision-free on the statements involved, then the
-    table comparison `c20_methods` checks for that class is false — the build of this file fails. -/
-theorem c20_one_sided_change_detected {σ : Type} (key : σ → Item Nat) (specsS : List (SpecS Nat σ)) (cls : Nat)
-    (shipped : List σ)
+    table comparison `c20_methods` checks for that class is false — the build of its module fails. -/
+theorem c20_one_sided_change_detected {σ : Type} (key : σ → Item Nat) (specsS : List (SpecS Nat σ))
+    (specs : List (Spec Nat)) (cls : Nat) (shipped : List σ)
+    (habs : AllAbstract key specsS specs)
     (hinj : ∀ a ∈ shipped, ∀ b ∈ regenS specsS cls, key a = key b → a = b)
     (hne : shipped ≠ regenS specsS cls) :
-    shipped.map key ≠ regenerated (specsS.map (SpecS.abstract key)) cls :=
-  table_complete key specsS cls shipped hinj hne
+    shipped.map key ≠ regenerated specs cls :=
+  table_complete key specsS specs cls shipped habs hinj hne
 
 /-- satisfiable, concretely: one spec for class 7 with body [⟨1,10⟩]; shipped copy edited to digest 11 -/
-example : ([⟨1, 11⟩] : List (Item Nat)).map id
-    ≠ regenerated ([(⟨0, .str 7, [⟨1, 10⟩]⟩ : SpecS Nat (Item Nat))].map (SpecS.abstract id)) 7 :=
-  c20_one_sided_change_detected id _ 7 _ (by decide) (by decide)
+example : ([⟨1, 11⟩] : List (Item Nat)).map id ≠ regenerated [(⟨0, .str 7, [⟨1, 10⟩], []⟩ : Spec Nat)] 7 :=
+  c20_one_sided_change_detected id _ _ 7 _ (abstracts_asSource _) (by decide) (by decide)
 
 /-- the insertion rule is `match_name`: equality with a string, membership of a list, nothing else -/
 theorem c20_insertion_rule {α : Type} [DecidableEq α] (spec : Spec α) (cls : α) :
@@ -167,9 +117,41 @@ theorem c20_insertion_rule {α : Type} [DecidableEq α] (spec : Spec α) (cls : 
   | other => simp
 
 /-- bug-for-bug: a tuple (or any non-list, non-string) never matches, and a string is not searched for substrings -/
-example : insertionRule (⟨"x", .other, []⟩ : Spec String) "Cell" = false := by decide
-example : insertionRule (⟨"x", .str "ConnectionWD", []⟩ : Spec String) "Connection" = false := by decide
-example : insertionRule (⟨"x", .list ["Connection", "ConnectionWD"], []⟩ : Spec String) "ConnectionWD" = true := by
+example : insertionRule (⟨"x", .other, [], []⟩ : Spec String) "Cell" = false := by decide
+example : insertionRule (⟨"x", .str "ConnectionWD", [], []⟩ : Spec String) "Connection" = false := by decide
+example : insertionRule (⟨"x", .list ["Connection", "ConnectionWD"], [], []⟩ : Spec String) "ConnectionWD" = true := by
   decide
+
+/-- **`%(class_name)s` interpolation (second pass).** What is pasted into class `cls` is the source interpolated FOR
+    `cls`: the per-class row when the translator recorded one, the class-independent statements otherwise. -/
+theorem c20_interpolation {α : Type} [DecidableEq α] (s : Spec α) (cls : α) :
+    (∀ p ∈ s.perClass, p.1 ≠ cls) → s.itemsFor cls = s.items := by
+  intro h
+  unfold Spec.itemsFor
+  have : s.perClass.find? (fun p => decide (p.1 = cls)) = none := by
+    apply List.find?_eq_none.mpr
+    intro p hp
+    simpa using h p hp
+  rw [this]
+
+/-- a source that mentions `%(class_name)s` gives two classes two different statement lists (model of
+    `__str__` returning the class name): class 1 and class 2 get different digests from ONE spec -/
+example : regenerated [(⟨0, .list [1, 2], [⟨5, 100⟩], [(1, [⟨5, 101⟩]), (2, [⟨5, 102⟩])]⟩ : Spec Nat)] 1 = [⟨5, 101⟩]
+    ∧ regenerated [(⟨0, .list [1, 2], [⟨5, 100⟩], [(1, [⟨5, 101⟩]), (2, [⟨5, 102⟩])]⟩ : Spec Nat)] 2 = [⟨5, 102⟩] := by
+  decide
+
+/-- **whole-file lifting (second pass).** Take ANY statement type with a collision-free (name, digest) key. If the
+    (name, digest) view of a shipped class body equals that of the freshly regenerated class body, the two bodies
+    are the same statement lists: re-running the regeneration changes no statement of the class. -/
+theorem c20_body_identity {σ : Type} (key : σ → Item Nat) (shipped regen : List σ)
+    (h : shipped.map key = regen.map key) (hinj : ∀ a b, key a = key b → a = b) : shipped = regen :=
+  body_eq_of_rows key shipped regen h (fun a _ b _ hab => hinj a b hab)
+
+example : ([⟨1, 10⟩, ⟨2, 20⟩] : List (Item Nat)) = [⟨1, 10⟩, ⟨2, 20⟩] :=
+  c20_body_identity id _ _ rfl (fun _ _ h => h)
+
+/-- a class body is its schema-driven part followed by its user part -/
+theorem c20_body_split (boundary : Nat) (ms : List (Item Nat)) :
+    generatedPart boundary ms ++ userPart boundary ms = ms := generatedPart_append_userPart boundary ms
 
 end NmlVerif.C20
